@@ -6,6 +6,7 @@ import (
 	"bytes"
 	"encoding/hex"
 	"fmt"
+	"math/big"
 	"os"
 	"os/exec"
 	"path/filepath"
@@ -16,6 +17,7 @@ import (
 
 	"verif/lib/vlib"
 	"verif/ref/refaddr"
+	"verif/ref/refec"
 )
 
 func repoDir() string {
@@ -62,6 +64,7 @@ type wcfg struct {
 	Bip39   int
 
 	Pubs   [][]byte // learned from `wallet -l -atype=pks`
+	Privs  [][]byte // learned from `wallet -dump *` (only used to recompute RFC6979 signatures); nil entries = unknown
 	Addrs  []string // learned from `wallet -l` (configured atype)
 	owners map[string]ownerRef
 }
@@ -319,5 +322,26 @@ func (w *wcfg) learn(bin, dir string) error {
 		}
 	}
 	w.Addrs = adrs
+	// private keys (for the -rfc6979 determinism check only)
+	w.Privs = make([][]byte, len(w.Pubs))
+	pr := runWallet(bin, dir, []string{"-dump", "*"}, 5*time.Minute)
+	if !pr.timedOut && pr.exit == 0 {
+		for _, ln := range strings.Split(pr.stdout, "\n") {
+			f := strings.Fields(ln)
+			if len(f) < 2 {
+				continue
+			}
+			_, key, compr, why := refaddr.WIFDecode(f[0])
+			if why != "" || !compr {
+				continue
+			}
+			pub := refec.ScalarBaseMult(new(big.Int).SetBytes(key)).SerializeCompressed()
+			for i := range w.Pubs {
+				if bytes.Equal(pub, w.Pubs[i]) {
+					w.Privs[i] = key
+				}
+			}
+		}
+	}
 	return nil
 }
